@@ -12,9 +12,8 @@ import BiotiteModel.Gen.C19
 Only property statements and non-vacuity examples; helper lemmas live in `Proofs/C19*.lean`.
 Everything quantifies over all inputs of the executable model (`Model/C19Tree.lean`,
 `Model/C19Cluster.lean`), which the correspondence harness ties to the Cython code.
-Not proved here (checked by the oracle on the real code only; see notes/C19.md): NJ leaves,
-UPGMA ultrametricity/average linkage, `distance_to` = path sum, `as_binary` keeps distances,
-the Newick round trip, NJ additivity recovery.
+Not proved here (oracle on the real code only; see notes/C19.md): NJ recovers every additive
+metric; the link between the compositional distance matrix `T.rows` and `distanceTo`.
 -/
 namespace BiotiteModel.C19
 
